@@ -59,10 +59,12 @@ Theorem C16_jump_abs_addr_arms : forall minor op rel,
 Proof. exact jump_abs_arms. Qed.
 
 (** 6. Magic numbers: for every installed interpreter 3.7 .. 3.12 with [MAGIC_NUMBER = b0 b1 b2 b3], the number erg derives
-    from the first two bytes maps back to exactly that version, and the header erg writes for it is [b0 b1 b2 b3]. *)
+    from the first two bytes maps back to exactly that version (through the panicking [get_ver_from_magic_num] and through
+    [try_get_ver_from_magic_num], which the .pyc reader uses), and the header erg writes for it is [b0 b1 b2 b3]. *)
 Theorem C16_magic_number_roundtrip : forall minor b0 b1 b2 b3,
   In (minor, [b0; b1; b2; b3]) cpy_magic -> minor <= 12 ->
   get_ver_from_magic_num (get_magic_num_from_bytes b0 b1 b2 b3) = Ok (3, minor)
+  /\ try_get_ver_from_magic_num (get_magic_num_from_bytes b0 b1 b2 b3) = Some (3, minor)
   /\ get_magic_num_bytes (get_magic_num_from_bytes b0 b1 b2 b3) = [b0; b1; b2; b3].
 Proof. exact magic_versions. Qed.
 
